@@ -151,7 +151,8 @@ Theorem refs_closed_seq E cfg fuel ts st ds st' :
   defs_closed cfg.(c_prefix) st' /\ Forall (refs_ok cfg.(c_prefix) (keys st')) ds /\ incl (keys st) (keys st').
 Proof.
   intros Hn Hb Hc.
-  eapply (build_seq_inv E cfg (refs_ok cfg.(c_prefix))); eauto using R_mono, R_ty, R_any, R_arr, R_dict, R_tuple,
+  eapply (build_seq_inv E cfg (refs_ok cfg.(c_prefix)) (R_mono _) (fun ks s => refs_ok cfg.(c_prefix) ks (render s)) (fun _ _ H => H)
+                        (fun ks ks' s Hi H => R_mono _ ks ks' _ Hi H)); eauto using R_mono, R_ty, R_any, R_arr, R_dict, R_tuple,
     R_union, R_ref, R_obj, R_ntobj, R_default, R_defs, R_schema.
 Qed.
 
@@ -161,7 +162,8 @@ Theorem refs_closed_build E cfg fuel wd uri t st d st' :
   defs_closed cfg.(c_prefix) st' /\ refs_ok cfg.(c_prefix) (keys st') d /\ incl (keys st) (keys st').
 Proof.
   intros Hn Hb Hc.
-  eapply (build_inv E cfg (refs_ok cfg.(c_prefix))); eauto using R_mono, R_ty, R_any, R_arr, R_dict, R_tuple,
+  eapply (build_inv E cfg (refs_ok cfg.(c_prefix)) (R_mono _) (fun ks s => refs_ok cfg.(c_prefix) ks (render s)) (fun _ _ H => H)
+                    (fun ks ks' s Hi H => R_mono _ ks ks' _ Hi H)); eauto using R_mono, R_ty, R_any, R_arr, R_dict, R_tuple,
     R_union, R_ref, R_obj, R_ntobj, R_default, R_defs, R_schema.
 Qed.
 
@@ -330,7 +332,8 @@ Theorem meta_seq E cfg fuel ts st ds st' :
   defs_meta st' /\ Forall (fun d => meta_ok d = true) ds.
 Proof.
   intros Hn Hb Hc.
-  destruct (build_seq_inv E cfg Gm M_mono M_ty M_any M_arr M_dict M_tuple M_union
+  destruct (build_seq_inv E cfg Gm M_mono (fun ks s => Gm ks (render s)) (fun _ _ H => H)
+                          (fun ks ks' s Hi H => M_mono ks ks' _ Hi H) M_ty M_any M_arr M_dict M_tuple M_union
                           (fun ks c _ => M_ref ks _) M_obj M_ntobj M_default M_defs M_schema Hn fuel ts st ds st' Hb Hc) as (A & B & _).
   split; assumption.
 Qed.
@@ -341,7 +344,8 @@ Theorem meta_build E cfg fuel wd uri t st d st' :
   defs_meta st' /\ meta_ok d = true.
 Proof.
   intros Hn Hb Hc.
-  destruct (build_inv E cfg Gm M_mono M_ty M_any M_arr M_dict M_tuple M_union
+  destruct (build_inv E cfg Gm M_mono (fun ks s => Gm ks (render s)) (fun _ _ H => H)
+                      (fun ks ks' s Hi H => M_mono ks ks' _ Hi H) M_ty M_any M_arr M_dict M_tuple M_union
                       (fun ks c _ => M_ref ks _) M_obj M_ntobj M_default M_defs M_schema Hn fuel wd uri t st d st' Hb Hc) as (A & B & _).
   split; assumption.
 Qed.
